@@ -245,3 +245,41 @@ func journal(entry string, input []byte) {
 	_, _ = journalFile.WriteAt(append(b, make([]byte, 0)...), 0)
 	_ = journalFile.Truncate(int64(len(b)))
 }
+
+// ---- known findings ----
+// A genuine defect that is recorded rather than repaired is listed in /verif/known_findings.json with status "open" and
+// a signature the harness recognises. A violating case that matches the signature of an open finding is counted and
+// skipped (so that the search goes on behind it); any other violation of the same property is reported as usual, and
+// so is this one as soon as the entry is no longer listed as open.
+
+var knownOnce sync.Once
+var knownOpenIDs map[string]bool
+
+func knownOpen(id string) bool {
+	knownOnce.Do(func() {
+		knownOpenIDs = map[string]bool{}
+		b, err := os.ReadFile(os.Getenv("VERIF_KNOWN"))
+		if err != nil {
+			return
+		}
+		var f struct {
+			Findings []struct {
+				ID     string `json:"id"`
+				Status string `json:"status"`
+			} `json:"findings"`
+		}
+		if json.Unmarshal(b, &f) == nil {
+			for _, x := range f.Findings {
+				if x.Status == "open" {
+					knownOpenIDs[x.ID] = true
+				}
+			}
+		}
+	})
+	return knownOpenIDs[id]
+}
+
+// Known counts a case that reproduces the open finding id.
+func (s *propStats) Known(id, what string) {
+	s.Exclude("known finding " + id + " reproduced (" + what + ")")
+}
